@@ -65,8 +65,9 @@ inductive Op where
   | close
 deriving DecidableEq, Repr, Inhabited
 
-/-- `ActiveSegment::curr_addr`: `base_addr.saturating_add(buffer.len() as u32)` -/
-def Active.cur (s : Active) : Nat := min (s.base + s.buf.length % 4294967296) u32Max
+/-- `ActiveSegment::curr_addr`: `base_addr.saturating_add(u32::try_from(buffer.len()).unwrap_or(u32::MAX))`
+(/repo 46d02de: the length saturates instead of being truncated by `as u32`) -/
+def Active.cur (s : Active) : Nat := min (s.base + min s.buf.length u32Max) u32Max
 
 /-- `ActiveSegment::remaining`: `max_len - buffer.len()`; `none` = `usize` underflow panic -/
 def Active.remaining (s : Active) : Option Nat :=
